@@ -374,6 +374,10 @@ func c17Program(src string, unsupported bool, stream string, model *Model, r *Re
 		r.Dist(stream + ":compile-error")
 		return
 	}
+	// does the program contain nodes Compile has no translation for? (read off the AST)
+	uns := map[string]int{}
+	unsupportedNodes(c.prog, uns)
+	unsupported = unsupported || len(uns) > 0
 	big := len(c.Code) > 65535 || c.NConsts > 65535 || c.LCount > 65535 || c.GCount > 65535
 	r.Count(src, c17HasJump(c.Code))
 	r.Dist(stream + ":compiled")
@@ -619,7 +623,7 @@ func c17Replay(cfg Config, r *Result) {
 	}
 	defer model.Close()
 	if src, ok := rep.Input["program"].(string); ok {
-		c17Program(src, strings.Contains(src, "print ") || strings.Contains(src, ":any"), "replay", model, r)
+		c17Program(src, false, "replay", model, r)
 	} else if g, ok := rep.Input["generator"].(string); ok {
 		c17Program(c17Large(strings.TrimPrefix(g, "large:"), rand.New(rand.NewSource(cfg.Seed))), false, g, model, r)
 	}
